@@ -48,7 +48,7 @@ CONSTANTS
   DelaySack,   \* TRUE: an in-order DATA chunk may be acknowledged later (delayed-SACK timer)
   \* Deviations (declared in SctpOps): subset of {"SetupOverwrite", "DataBeforeEstablished",
   \*   "FwdPlainCompare", "AdvPointWrongSpace", "FwdNotRetransmitted", "PartialAbandon", "StaleSackUpdatesRwnd", "T3OnlyInFlightOrMarked",
-  \*   "CollisionReopens", "CookieAckDroppedWhenConnected"}
+  \*   "CollisionReopens", "CookieAckDroppedWhenConnected", "BudgetBeforeRtx"}
   NetMode, Budget,
   Props        \* properties whose rules are switched on
 
@@ -302,13 +302,22 @@ AppSend(s) ==
         /\ sub' = [sub EXCEPT ![s] = i]
   /\ UNCHANGED <<st, t1, t1cnt, itsn, answered, next, rx, sentQ, deliv, opens>> /\ PrSame /\ NetSame /\ NoFault
 
+\* what transmit() sets against the advertised window when it decides about new data.  The contract counts
+\* every outstanding chunk.  The retransmit phase of the same transmit() call comes first and puts the chunks a
+\* T3 expiry took out of flight back in flight: a budget computed from the flight size read *before* that phase
+\* (deviation "BudgetBeforeRtx") does not see them, and a whole window of new data leaves on top of the
+\* retransmissions after every expiry.
+BudgetFlight(s) ==
+  IF "BudgetBeforeRtx" \in Deviations
+  THEN Cardinality({x \in Outstanding(sentQ[s]) : x.inf /\ x.n = 1})
+  ELSE Cardinality(Outstanding(sentQ[s]))
 TransmitNew(s) ==
   /\ st[s] = "Connected"
   /\ outQ[s] # <<>>
   /\ Cardinality(Outstanding(sentQ[s])) < Win
   \* transmit(): new data while rwnd - flight > 0; the last chunk may exceed what is left (one packet
   \* beyond the window), but nothing goes out against an advertised window of zero
-  /\ peerW[s] > 0 /\ peerW[s] + 1 > Cardinality(Outstanding(sentQ[s]))
+  /\ peerW[s] > 0 /\ peerW[s] + 1 > BudgetFlight(s)
   /\ since' = IF WOn THEN [since EXCEPT ![s] = @ + 1] ELSE since
   /\ LET f == Head(outQ[s])
          t == next[s]
@@ -597,6 +606,13 @@ ConsecutiveTsn ==
 WindowRespected == Rule("C13", \A s \in Side : Cardinality(Outstanding(sentQ[s])) <= Win)
 \* between two SACKs that count, at most the advertised window (+ one packet) of new data
 NewDataWithinWindow == Rule("C13", \A s \in Side : since[s] <= peerW[s] + 1)
+\* a new chunk never leaves while what is in flight (sent or retransmitted, unacknowledged, not taken out of
+\* flight by a T3 expiry) already exceeds the advertised window: after the step at most window + one packet is
+\* in flight - in particular right after a T3 expiry, once its retransmissions are back in flight (action property)
+InFlightWithinWindow ==
+  [][Rule("C13", \A s \in Side :
+        (WOn /\ Cardinality(sentQ'[s]) > Cardinality(sentQ[s])) =>
+            Cardinality({x \in Outstanding(sentQ'[s]) : x.inf}) <= peerW[s] + 1)]_vars
 
 TypeOK ==
   /\ \A s \in Side : st[s] \in {"New", "Connecting", "Connected", "Closed"}
